@@ -278,10 +278,30 @@ class UsertypeFluentsRemover(engines.engine.Engine, CompilerMixin):
                     i, utf_remover.remove_usertype_fluents_from_condition(c)
                 )
 
+        def convert_trajectory_constraint(tr: FNode) -> FNode:
+            # the walker handles state formulae only: convert the arguments of the temporal
+            # operators and rebuild the constraint around them
+            if tr.is_and():
+                return em.And(*(convert_trajectory_constraint(a) for a in tr.args))
+            if tr.is_forall():
+                return em.Forall(convert_trajectory_constraint(tr.arg(0)), *tr.variables())
+            args = [
+                utf_remover.remove_usertype_fluents_from_condition(a) for a in tr.args
+            ]
+            if tr.is_always():
+                return em.Always(*args)
+            if tr.is_sometime():
+                return em.Sometime(*args)
+            if tr.is_at_most_once():
+                return em.AtMostOnce(*args)
+            if tr.is_sometime_before():
+                return em.SometimeBefore(*args)
+            if tr.is_sometime_after():
+                return em.SometimeAfter(*args)
+            return utf_remover.remove_usertype_fluents_from_condition(tr)
+
         for tr in problem.trajectory_constraints:
-            new_problem.add_trajectory_constraint(
-                utf_remover.remove_usertype_fluents_from_condition(tr)
-            )
+            new_problem.add_trajectory_constraint(convert_trajectory_constraint(tr))
 
         for qm in problem.quality_metrics:
             if qm.is_minimize_sequential_plan_length() or qm.is_minimize_makespan():
